@@ -67,6 +67,12 @@ func minSize(t reflect.Type) int {
 // build sets, in a minimal object, the slice at `path` to n minimal elements
 // (intermediate slices get one element); returns the tag maxlen of that field.
 func build(obj interface{}, path []step, n int, r *Rng) (ml int, ok bool) {
+	ml, ok, _ = buildT(obj, path, n, r)
+	return
+}
+
+// buildT is build returning also the target field (to change its length afterwards)
+func buildT(obj interface{}, path []step, n int, r *Rng) (ml int, ok bool, target reflect.Value) {
 	g := &gen{r: r, maxEl: 0}
 	v := reflect.ValueOf(obj).Elem()
 	g.fill(v, 0, 0)
@@ -78,7 +84,7 @@ func build(obj interface{}, path []step, n int, r *Rng) (ml int, ok bool) {
 			v = v.Index(0)
 		}
 		if v.Kind() != reflect.Struct {
-			return 0, false
+			return 0, false, v
 		}
 		_, m, _ := encField(v.Type(), st.field)
 		v = v.Field(st.field)
@@ -99,9 +105,9 @@ func build(obj interface{}, path []step, n int, r *Rng) (ml int, ok bool) {
 		}
 		v.Set(s)
 	default:
-		return 0, false
+		return 0, false, v
 	}
-	return ml, true
+	return ml, true, v
 }
 
 // exceeds reports whether some tagged field of v is longer than its maxlen
@@ -243,13 +249,15 @@ func runBig(f *Flags) error {
 			}
 			// count prefixes far beyond the data (no allocation of the value): patch the
 			// count of an empty encoding
-			base := e.c.New()
-			if _, ok := build(base, p, 0, r); ok && len(p) == 1 {
-				var zb []byte
-				one := e.c.New()
-				build(one, p, 1, r)
-				var ob []byte
-				if !Guard(func() { zb = encoder.Serialize(base) }) && !Guard(func() { ob = encoder.Serialize(one) }) {
+			one := e.c.New()
+			if _, ok, tgt := buildT(one, p, 1, r); ok && tgt.Kind() == reflect.Slice {
+				// the same object with one element and with none: the encodings differ first
+				// at the count prefix of the target field
+				var zb, ob []byte
+				okS := !Guard(func() { ob = encoder.Serialize(one) })
+				tgt.Set(reflect.MakeSlice(tgt.Type(), 0, 0))
+				okS = okS && !Guard(func() { zb = encoder.Serialize(one) })
+				if okS {
 					// locate the count: first position where the two encodings differ
 					pos := -1
 					for i := 0; i < len(zb) && i < len(ob); i++ {
